@@ -19,12 +19,27 @@ def check(pid, level, technique, text, note, engine="mc_core", design=None, thor
                        design=design or f"DESIGN.md §4 {pid}", thorough=thorough)
 
 
+check("C01", "exploration",
+      "exhaustive small-scope enumeration of programs of a typed fragment grammar; differential oracle = independently printed Python reading executed by CPython",
+      "Every program of fragment G1 up to the stated bounds (all depth<=1 expressions over a per-type literal alphabet, a systematic slice (quick) or all (thorough) of depth 2, "
+      "12 statement templates: definitions, functions, lambdas, closures, for/while loops, if, list/tuple/record/nested patterns, match; every literal of the boundary alphabet "
+      "incl. 2**31, 2**63, 2**64-1 and signed zeros, alone, in depth-1 expressions and in every ordered pair) is compiled by a fresh in-process Compiler and executed; stdout, "
+      "uncaught exception type and exit status must equal those of the Python program printed from the same tree by py/gen.py.",
+      "Fragment and bounds only; CPython 3.11 executes both sides; programs the compiler rejects are skipped and counted (premise floor 40%).",
+      engine="compile-batch+pyrun")
+
 check("C08", "exploration",
       "exhaustive small-scope enumeration of every input string over a stated alphabet up to a length, through the real lexer, oracle on every one",
       "Every string of length <=5 (quick) / <=6 (thorough) over a 17/21-symbol alphabet chosen to reach every lexer branch (quotes, backslash, braces, comments, "
       "indentation, tab, non-ASCII, bidi), plus every shorter string after 10 state-setting prefixes, is lexed by erg_parser::lex::Lexer; no panic/hang, "
       "EOF/indent balance, and every token's (line, column) must be where its text is in the source. A coverage statement over the whole bounded space, not a sample.",
       "Inputs longer than the bound or using characters outside the alphabet are not covered; position clauses judged only on inputs lexed without error.")
+
+check("C09", "exploration",
+      "exhaustive enumeration of token sequences, of every prefix/deletion of corpus files, and of every nesting depth 1..1000 of 14 nesting forms",
+      "All sequences of <=4/5 (dev profile) and <=5/6 (release) tokens over 24 tokens, every character prefix and word deletion of every corpus file in both profiles, and every depth "
+      "1..1000 of each nesting form on an 8 MiB thread (release): the parser must return a tree without errors or >=1 error, never panic, abort or hang; bracket nesting <=200 must be accepted.",
+      "Nesting judged on the release profile only; interpolation nesting only required not to crash; token alphabet and corpus bound the rest.")
 
 check("C11", "exploration",
       "exhaustive enumeration of operator chains; oracle = reference precedence-climbing parser built from the documented table",
@@ -93,6 +108,8 @@ def main():
             "add_only": True,
         },
         "engines": [
+            {"name": "compile-batch+pyrun", "path": "/verif/py", "serves_properties": [p for p in ids if p in CHECKS and CHECKS[p]["engine"] == "compile-batch+pyrun"],
+             "kind_free_text": "Python drivers (py/gen.py grammar + independent translator, py/vlib.py pipeline) over `mc_core compile-batch` (the real compiler in-process, one fresh Compiler per program, worker processes) and py/pyrun.py under each target interpreter"},
             {"name": "mc_core", "path": "/verif/harness/mc_core", "serves_properties": [p for p in ids if p in CHECKS and CHECKS[p]["engine"] == "mc_core"],
              "kind_free_text": "Rust binary linking the real erg crates by path; exhaustive indexed enumeration / explicit-state BFS with per-item oracle, parallel walk, watchdog, bisecting of aborts"},
         ],
